@@ -69,11 +69,11 @@ def c04(tier):
     return {"instances": insts, "assumptions": COMMON_ASSUME,
             "explanation": "bounded model checking of the real parser and follow-up API calls on fully symbolic file bytes"}
 
-def small(name, harness, defs, E=2, G=3, unwind=24, timeout=600, extra_uw=(), leak=True, mem=8, functions="", bounds="", decoder=None, flags=(), envs=("libc_model.c", "vfs_cbmc.c")):
+def small(name, harness, defs, E=2, G=3, unwind=24, timeout=600, extra_uw=(), leak=True, mem=8, functions="", bounds="", decoder=None, flags=(), envs=("libc_model.c", "vfs_cbmc.c"), expect=None):
     d = {"STRCAP": 24, "VCAP": max(E, G) + 1, "VFS_MAXNODES": 2, "VFS_CONTENT": 4}
     d.update(defs)
     return Instance(name, harness, d, unwind=unwind, unwindset=lib_unwinds(E, G) + list(extra_uw), timeout=timeout, mem_gb=mem,
-                    leak_check=leak, functions=functions, bounds=bounds, sample_decoder=decoder, flags=list(flags), envs=envs)
+                    leak_check=leak, functions=functions, bounds=bounds, sample_decoder=decoder, flags=list(flags), envs=envs, expect_reach=expect)
 
 TYPED_FUNCS = "econf_set<T>Value, econf_get<T>Value (macro instantiations), setKeyValue, find_key, new_key, key_file_append, set<T>ValueNum, get<T>ValueNum, stripbrackets"
 
@@ -101,6 +101,7 @@ def dec_lit(inp, inst):
     sign = ["", "-", "+"][b[0] % 3]; n = b[1]
     pre = ["", "0", "0x", "0X"][bk]
     digs = "".join("0123456789abcdef"[x % 16] for x in b[2:2 + min(n, nd)])
+    digs = inst.defines.get("PREFIX", '""').strip('"') + digs
     return {"literal": sign + pre + (digs.upper() if bk == 3 else digs), "getter": [k for k in inst.defines if k.startswith("GET_")]}
 
 def dec_bool(inp, inst):
@@ -109,14 +110,18 @@ def dec_bool(inp, inst):
 
 def c09(tier):
     insts = []
-    digs = {0: (11, 20), 1: (12, 23), 2: (9, 17), 3: (9, 17)}
+    dec_prefixes = [("", 4 if tier == "quick" else 6), ("21474836", 3), ("42949672", 3), ("92233720368547758", 3), ("184467440737095516", 3)]
     for g in ("INT", "INT64", "UINT", "UINT64"):
-        for bk in (0, 1, 2, 3):
+        fn = "econf_get%sValue, econf_get%sValueDef, get%sValueNum, find_key + reference strto* model" % (g.title(), g.title(), g.title())
+        for pre, nd in dec_prefixes:
+            insts.append(small("lit-%s-dec-%s-d%d" % (g.lower(), pre or "free", nd), "s_lit.c", {"GET_" + g: None, "ND": nd, "BASEK": 0, "PREFIX": '"%s"' % pre, "STRCAP": nd + len(pre) + 6},
+                               unwind=nd + len(pre) + 7, functions=fn, decoder=dec_lit, timeout=900, expect=["end"],
+                               bounds="sign in {none,-,+}, decimal literal = concrete prefix '%s' + 0..%d symbolic digits (crosses the type limits +-2 and beyond)" % (pre, nd),
+                               ))
+        for bk, nd in ((1, 23), (2, 17), (3, 17)):
             if tier == "quick" and bk == 3: continue
-            nd = digs[bk][0 if tier == "quick" else 1]
-            insts.append(small("lit-%s-base%d-d%d" % (g.lower(), bk, nd), "s_lit.c", {"GET_" + g: None, "ND": nd, "BASEK": bk, "STRCAP": nd + 6}, unwind=nd + 7,
-                               functions="econf_get%sValue, econf_get%sValueDef, get%sValueNum, find_key + reference strto* model" % (g.title(), g.title(), g.title()),
-                               bounds="sign in {none,-,+}, %s literal of 1..%d symbolic digits" % (["decimal", "octal", "hex 0x", "hex 0X"][bk], nd), decoder=dec_lit, timeout=900))
+            insts.append(small("lit-%s-base%d-d%d" % (g.lower(), bk, nd), "s_lit.c", {"GET_" + g: None, "ND": nd, "BASEK": bk, "STRCAP": nd + 6}, unwind=nd + 7, functions=fn,
+                               bounds="sign in {none,-,+}, %s literal of 1..%d symbolic digits (up to %d-bit magnitudes)" % (["decimal", "octal", "hex 0x", "hex 0X"][bk], nd, nd * (3 if bk == 1 else 4)), decoder=dec_lit, timeout=900, expect=["end", "in range"] + ([] if g == "INT64" and bk == 1 else ["out of range"])))
     bl = 5 if tier == "quick" else 6
     insts.append(small("bool-text-%d" % bl, "s_bool.c", {"BL": bl, "STRCAP": 12}, unwind=13, functions="econf_getBoolValue, getBoolValueNum, toLowerCase, hashstring, econf_getBoolValueDef",
                        bounds="stored text: every byte string of length <= %d (all 256 byte values)" % bl, decoder=dec_bool))
